@@ -21,7 +21,10 @@ RULE = ("seeded random matrix relations over 0-4 variables (domains of 1-3 disti
         "and for set also explicit int8/uint8/int16/int32 numpy tables with float / out-of-range "
         "/ infinite values set into them; "
         "operations set (list/dict), get (list/dict), slice, generate_assignment_as_dict, join "
-        "(overlapping, disjoint, identical, 0-ary scopes), projection (min/max); plus a malformed "
+        "(overlapping, disjoint, identical, rotated / permuted same scopes, 0-ary scopes; the second "
+        "operand built on equal-but-distinct Variable objects: rebuilt, cost dict in another insertion "
+        "order, from_repr(simple_repr(v)); a shared variable then projected out of the join), "
+        "projection (min/max, the projected variable possibly an equal copy); plus a malformed "
         "stream (values outside the domain, missing / extra variables, short / long lists, "
         "projection on a foreign variable). non-trivial = relation of arity >= 1 with a table that "
         "is not constant; distinct = distinct case JSON")
@@ -213,8 +216,17 @@ def gen(rng, n, tier):
         kind = rng.choice(kinds)
         dup = rng.random() < 0.03
         nv = rng.randint(1, 5)
-        vs = [gen_var(rng, j, dup=dup) for j in range(nv)]
+        vs = [gen_var(rng, j, dup=dup, with_cost=0.5 if kind in ("join", "proj") and not dup else 0.0)
+              for j in range(nv)]
+        for v in vs:        # C12 tables are about relation values: finite own costs, full cost dicts
+            if v["kind"] == "dict":
+                v["costs"] = [[d, rng.randint(-9, 30)] for d in v["dom"]]
+            elif v["kind"] == "func":
+                v["costs"] = [[d, rng.randint(-9, 30)] for d in v["dom"]]
         c = dict(kind=kind, vars=vs, dup=dup)
+        if kind in ("join", "proj"):
+            # the second operand / the projected variable use equal-but-distinct Variable objects
+            c["copy"] = rng.choice([None, "fresh", "perm", "perm", "repr"])
         bad = rng.random() < 0.15
         c["bad"] = bad
         if kind in ("setlist", "setdict", "getlist", "getdict", "slice"):
@@ -261,6 +273,14 @@ def gen(rng, n, tier):
             if rng.random() < 0.1:
                 draw = palette(rng)
                 c["u2"] = dict(c["u1"], table=[draw() for _ in c["u1"]["table"]])
+            elif rng.random() < 0.2 and nv >= 2:
+                # same scope in another order (rotations and other permutations, mostly 3 variables)
+                c["u1"] = gen_rel(rng, vs, arity=rng.choice([2, 3, 3, 3]))
+                d1 = list(c["u1"]["dims"])
+                k = rng.randrange(1, len(d1)) if len(d1) > 1 else 0
+                d2 = d1[k:] + d1[:k] if rng.random() < 0.7 else rng.sample(d1, len(d1))
+                draw = palette(rng)
+                c["u2"] = dict(dims=d2, table=[draw() for _ in c["u1"]["table"]], dtype=c["u1"]["dtype"])
             # keep the joined table small
             while _joined_size(c) > 81:
                 c["u2"] = gen_rel(rng, vs, arity=1)
@@ -301,18 +321,27 @@ def vid(name):
     return int(name[1:])
 
 
-def build_vars(case):
+def build_vars(case, copy=None):
+    """copy = None: the variables of the case.  Otherwise EQUAL but distinct objects: "fresh" =
+    built again the same way, "perm" = cost dicts filled in reverse insertion order, "repr" =
+    from_repr(simple_repr(v)) (plain and cost-dict variables)"""
     from pydcop.dcop.objects import Variable, VariableWithCostDict, VariableWithCostFunc
     out = {}
     for v in case["vars"]:
         name = vname(v["id"])
         if v["kind"] == "dict":
-            out[v["id"]] = VariableWithCostDict(name, list(v["dom"]), {d: untok(c) for d, c in v["costs"]})
+            costs = list(v["costs"])
+            if copy == "perm":
+                costs.reverse()
+            out[v["id"]] = VariableWithCostDict(name, list(v["dom"]), {d: untok(c) for d, c in costs})
         elif v["kind"] == "func":
             table = {d: untok(c) for d, c in v["costs"]}
             out[v["id"]] = VariableWithCostFunc(name, list(v["dom"]), (lambda t: (lambda val: t[val]))(table))
         else:
             out[v["id"]] = Variable(name, list(v["dom"]))
+        if copy == "repr" and v["kind"] in ("plain", "dict"):
+            from pydcop.utils.simple_repr import simple_repr, from_repr
+            out[v["id"]] = from_repr(simple_repr(out[v["id"]]))
     return out
 
 
@@ -357,17 +386,27 @@ def run_impl(c):
         for a in R.generate_assignment_as_dict([objs[i] for i in c["dims"]]):
             out.append([[vid(n), v] for n, v in a.items()])
         return dict(asgs=out)
+    objs2 = build_vars(c, c["copy"]) if c.get("copy") else objs
     if k == "join":
-        u1, u2 = build_rel(c, c["u1"], objs, "u1"), build_rel(c, c["u2"], objs, "u2")
+        u1, u2 = build_rel(c, c["u1"], objs, "u1"), build_rel(c, c["u2"], objs2, "u2")
         try:
-            return dict(rel=obs_rel(R.join(u1, u2)))
+            j = R.join(u1, u2)
+            res = dict(rel=obs_rel(j))
         except Exception as e:
             return err_obs(e)
+        shared = [i for i in c["u1"]["dims"] if i in c["u2"]["dims"]]
+        if shared:      # DPOP's next step: project a shared variable out of the join
+            try:
+                res["proj_x"] = shared[0]
+                res["proj"] = obs_rel(R.projection(j, objs2[shared[0]], "min"))
+            except Exception as e:
+                res["proj"] = err_obs(e)
+        return res
     r = build_rel(c, c["rel"], objs, "r")
     before = (str(r._m.dtype), r._m.tolist())
     try:
         if k == "proj":
-            res = dict(rel=obs_rel(R.projection(r, objs[c["x"]], c["mode"])))
+            res = dict(rel=obs_rel(R.projection(r, objs2[c["x"]], c["mode"])))
         elif k == "setlist":
             val = untok(c["value"], c["value_float"])
             new = r.set_value_for_assignment([v for _, v in c["asg"]], val)
@@ -477,7 +516,8 @@ def oracle(c, o):
         f2, d2 = table_fn(c, c["u2"])
         exp_dims = [v["id"] for v in d1] + [v["id"] for v in d2 if v["id"] not in c["u1"]["dims"]]
         if o["rel"]["dims"] != exp_dims:
-            return "join scope %r, expected %r" % (o["rel"]["dims"], exp_dims)
+            return "join scope %r, expected %r (union by name, no duplicate, u1's variables first)" % (
+                o["rel"]["dims"], exp_dims)
         fo, do = obs_fn(c, o["rel"])
         if fo is None:
             return "join table shape does not match its scope"
@@ -485,6 +525,23 @@ def oracle(c, o):
             e = f1(a) + f2(a)
             if not same_num(fo(a), e):
                 return "join(%r) = %r, u1+u2 = %r" % (a, fo(a), e)
+        if "proj" in o:
+            px = o["proj_x"]
+            if "error" in o["proj"]:
+                return "projection of the join on shared variable %r raised %s" % (px, o["proj"]["error"])
+            want = [i for i in exp_dims if i != px]
+            if o["proj"]["dims"] != want:
+                return "projection of the join on %r has scope %r, expected %r" % (px, o["proj"]["dims"], want)
+            fp, dp = obs_fn(c, o["proj"])
+            if fp is None:
+                return "projection of the join: table shape does not match its scope"
+            xv = [v for v in c["vars"] if v["id"] == px][0]
+            for a in all_asg(dp):
+                vals = [f1({**a, px: d}) + f2({**a, px: d}) for d in xv["dom"]]
+                if any(isinstance(v, float) and math.isnan(v) for v in vals):
+                    continue
+                if not same_num(fp(a), min(vals)):
+                    return "projection(min) of the join at %r = %r, optimum = %r" % (a, fp(a), min(vals))
         return None
     if k == "proj":
         f, dims = table_fn(c, c["rel"])
